@@ -27,6 +27,8 @@ def main():
             print(i, p.returncode, clause[:1], f'{time.time()-t0:.0f}s', flush=True)
     finally:
         subprocess.run(['git', '-C', '/repo', 'checkout', '--', '.'])
+        # files added by the patch (git clean honours .gitignore, so target/ and certs/ stay)
+        subprocess.run(['git', '-C', '/repo', 'clean', '-fdq'])
         # replays written while the mutant was applied are not findings on the real tree
         subprocess.run('git -C /verif status --porcelain --untracked-files=all replays | awk \'{print $2}\' | xargs -r -I{} rm -f /verif/{}', shell=True)
     rp = os.path.join(d, 'result.json')
